@@ -206,6 +206,20 @@ func TestC09Authenticity(t *testing.T) {
 					b2 := cbor.Marshal(&t2)
 					ders = append(ders, derivative{dn.kind, envelope(b2, a.Signer.Public(), ed25519.Sign(rawKey(a.Signer), chain.TxDigest(chainCtx, b2)))})
 				}
+				// signatures "by" public keys of small order (nobody holds a private key for them): with R of small order
+				// and S = 0 the same 64 bytes satisfy the verification equation for many messages, so such a signature is
+				// bound to nothing. Several (A, R) pairs, on a blob with the stated account's current nonce.
+				for i, nso := 0, rapid.IntRange(1, 4).Draw(t, "nSmallOrder"); i < nso; i++ {
+					A := chain.SmallOrderEncodings[rapid.IntRange(0, len(chain.SmallOrderEncodings)-1).Draw(t, "soA")]
+					R := chain.SmallOrderEncodings[rapid.IntRange(0, len(chain.SmallOrderEncodings)-1).Draw(t, "soR")]
+					var pk signature.PublicKey
+					copy(pk[:], A)
+					soAcct := chain.AccountIn(base, staking.NewAddress(pk))
+					t3 := transaction.NewTransaction(soAcct.General.Nonce, &transaction.Fee{Gas: 200000}, staking.MethodTransfer,
+						&staking.Transfer{To: to.Addr, Amount: quantityOf(uint64(rapid.IntRange(0, 1).Draw(t, "soAmount")))})
+					sig := append(append([]byte{}, R...), make([]byte, 32)...)
+					ders = append(ders, derivative{fmt.Sprintf("small-order-signer:%x/%x", A[:2], R[:2]), envelope(cbor.Marshal(t3), pk, sig)})
+				}
 				// envelope re-encodings: non-canonical key order / extra trailing byte / wrapped in a tag
 				ders = append(ders, derivative{"trailing-byte", append(append([]byte{}, f...), 0x00)},
 					derivative{"cbor-tag", append([]byte{0xc1}, f...)})
@@ -274,7 +288,7 @@ func TestC09Authenticity(t *testing.T) {
 
 func kindClass(k string) string {
 	for i, c := range k {
-		if c == '@' {
+		if c == '@' || (c == ':' && len(k) > 11 && k[:11] == "small-order") {
 			return k[:i]
 		}
 	}
